@@ -593,6 +593,16 @@ pub fn parse_table(p: &impl FontTableProvider, t: u32) -> Result<String, WalkErr
         tag::CFF => {
             let mut cff = scope.read::<CFF<'_>>().map_err(pe)?;
             let mut h = Fnv::new();
+            // enumeration of the charset (`CustomCharset::iter` borrows for the lifetime of the
+            // data, hence a table object of its own; bounded: a range may span 65536 ids)
+            let cff_b = scope.read::<CFF<'_>>().map_err(pe)?;
+            if let Some(allsorts::cff::Charset::Custom(custom)) = cff_b.fonts.first().map(|f| &f.charset) {
+                let mut k = 0u32;
+                for id in custom.iter().take(70_000) {
+                    k = k.wrapping_mul(31).wrapping_add(u32::from(id));
+                }
+                h.write(&k.to_be_bytes());
+            }
             let mut errs = 0;
             let n = cff
                 .fonts
